@@ -20,22 +20,22 @@
 EXTENDS IOLib, Json, IOUtils
 CONSTANTS EmitDocs
 Insts == JsonDeserialize(IOEnv.INST_FILE)
-VARIABLES ii, phase, ord, fmt, doc
-vars == <<ii, phase, ord, fmt, doc>>
+VARIABLES ii, phase, ord, mod, fmt, doc
+vars == <<ii, phase, ord, mod, fmt, doc>>
 I == Insts[ii]
 M0 == [kind |-> I.kind, nodes |-> I.nodes, states |-> I.states, fams |-> I.fams]
-M1 == Reorder(M0, ord)
+M1 == mod
 
-Init == ii \in 1..Len(Insts) /\ phase = "inst" /\ ord = <<>> /\ fmt = "" /\ doc = <<>>
+Init == ii \in 1..Len(Insts) /\ phase = "inst" /\ ord = <<>> /\ mod = <<>> /\ fmt = "" /\ doc = <<>>
 ChooseOrder == /\ phase = "inst"
-               /\ \E o \in Orders(M0, ToSet(I.permute)) : ord' = o
+               /\ \E o \in Orders(M0, ToSet(I.permute)) : ord' = o /\ mod' = Reorder(M0, o)
                /\ phase' = "model" /\ UNCHANGED <<ii, fmt, doc>>
 WriteDoc == /\ phase = "model"
             /\ \E f \in Formats(M0) : fmt' = f /\ doc' = Write(f, M1, I.vals)
-            /\ phase' = "doc" /\ UNCHANGED <<ii, ord>>
+            /\ phase' = "doc" /\ UNCHANGED <<ii, ord, mod>>
 ShuffleRows == /\ phase = "doc" /\ fmt = "BIF"
                /\ doc' = [doc EXCEPT !.probs = [i \in 1..Len(doc.probs) |-> [doc.probs[i] EXCEPT !.rows = Reverse(doc.probs[i].rows)]]]
-               /\ phase' = "doc2" /\ UNCHANGED <<ii, ord, fmt>>
+               /\ phase' = "doc2" /\ UNCHANGED <<ii, ord, mod, fmt>>
 Next == ChooseOrder \/ WriteDoc \/ ShuffleRows
 
 \* ---- lemmas
